@@ -30,7 +30,16 @@ def replay(sig=0x01110003):
     return struct.pack("<IIIBIIIIIB", sig, 0, 0, 0, 0x91, 0, 0, 0, 0, 0)
 
 
-def objtable(entries, n=None, sig=0x01110001):
+def objtable(entries, n=None, sig=0x01110001, holes=0):
+    """holes: number of unallocated slots (allocated == 0; every second one still names a stale key-table entry) put in
+    front of / between the entries -- slots are not necessarily handed out front to back."""
+    if holes:
+        mixed = []
+        for i, e in enumerate(entries):
+            for h in range(holes if i < 2 else 1):
+                mixed.append((2, 0xDEAD000, 0x1000, 0) if (i + h) % 2 else (4, 0, 0, 0))
+            mixed.append(e)
+        entries = mixed
     n = n if n is not None else max(len(entries) + 2, 8)
     b = struct.pack("<II", sig, n)
     for (t, off, size, alloc) in entries:
@@ -80,7 +89,7 @@ def plain(tree):
 def build(tree, placement=None, ntables=1, table_order="fwd", free_at=None, seqs=(7, 6), stale=None, table_seq=5,
           second_object_table=False, fileobj_threshold=0x800, version=0x400, slack=4, stale_tree=None,
           stale_positions=None, fileobj_base=0x40000, fileobj_gap=0, as_image=False, extra_flags=0, object_table_chain=0,
-          chain_shape="chain", extra_replay_log=False):
+          chain_shape="chain", extra_replay_log=False, holes=0, free_size=32):
     """placement: list (per preorder entry) of table index 1..ntables (default round-robin).
     table_order: 'fwd' | 'rev' order of the entries inside each table (rev puts children before parents).
     free_at: set of global positions before which a Free entry is inserted.
@@ -134,8 +143,10 @@ def build(tree, placement=None, ntables=1, table_order="fwd", free_at=None, seqs
         for t, es in per_table.items():
             for e in es:
                 if pos in free_at:
-                    items[t].append(("free", 21 + 11))
-                    cur[t] += 32
+                    # "alias": the entry behind the Free entry lands at 0x10000 + the offset of the table's first entry
+                    fs = max(32, 0x1000A - cur[t]) if free_size == "alias" else free_size
+                    items[t].append(("free", fs))
+                    cur[t] += fs
                 pos += 1
                 raw, flags = raw_of(e, values)
                 kb = e["key"].encode("utf-8") + b"\0"
@@ -225,18 +236,18 @@ def build(tree, placement=None, ntables=1, table_order="fwd", free_at=None, seqs
             elif i < k:
                 links = [(1, offs[i + 1], 0x1000, 1)]
             ents_i = (shares[i] + links) if chain_shape == "tail" else (links + shares[i])
-            tb = objtable(ents_i)
+            tb = objtable(ents_i, holes=holes)
             assert len(tb) <= 0x1000
             img[offs[i]:offs[i] + len(tb)] = tb
         ot = b""
     elif second_object_table:
         half = len(oe) // 2
         first, second = oe[:half], oe[half:]
-        ot2 = objtable(second)
+        ot2 = objtable(second, holes=holes)
         img[0x3000:0x3000 + len(ot2)] = ot2
-        ot = objtable(first + [(1, 0x3000, 0x1000, 1)])
+        ot = objtable(first + [(1, 0x3000, 0x1000, 1)], holes=holes)
     else:
-        ot = objtable(oe)
+        ot = objtable(oe, holes=holes)
     img[0x2000:0x2000 + len(ot)] = ot
     if as_image:
         from mc import pattern
@@ -362,6 +373,8 @@ def selfvalidate():
         for k in (1, 2, 3, 5):
             for shape in ("chain", "fan", "tail"):
                 assert decode(build(tree, ntables=nt, object_table_chain=k, chain_shape=shape, extra_replay_log=True,
-                                    extra_flags=0x02)) == plain(tree)
+                                    extra_flags=0x02, holes=k % 3)) == plain(tree)
                 n += 1
+        assert decode(build(tree, ntables=nt, free_at={1, 2}, free_size=0x10000 - 64, holes=2)) == plain(tree)
+        n += 1
     return n
